@@ -83,10 +83,11 @@ const (
 	dIssuer
 	dAlg
 	dPad
+	dUpd
 	dNumDims
 )
 
-var c06DimNames = [dNumDims]string{"version", "entries", "nextUpdate", "crlExtensions", "encoding", "revDateForm", "serialForm", "entryExt", "issuerShape", "sigAlg", "pad"}
+var c06DimNames = [dNumDims]string{"version", "entries", "nextUpdate", "crlExtensions", "encoding", "revDateForm", "serialForm", "entryExt", "issuerShape", "sigAlg", "pad", "updateTimes"}
 
 var c06Values = [dNumDims][]string{
 	dVer:    {"v2", "v1-absent", "v3"},
@@ -100,6 +101,9 @@ var c06Values = [dNumDims][]string{
 	dIssuer: {"simple", "1rdn", "6rdn", "multivalued-rdn", "utf8-nonascii", "300byte-value"},
 	dAlg:    {"ecdsa-sha256", "sha1-rsa", "sha224-rsa", "sha256-rsa", "sha384-rsa", "sha512-rsa", "ecdsa-sha1", "ecdsa-sha224", "ecdsa-sha384", "ecdsa-sha512"},
 	dPad:    {"0"}, // numeric, free
+	// thisUpdate (nextUpdate one minute later, revocation dates one minute earlier) at the edges of the UTCTime range:
+	// two-digit years 50..99 are 19xx, 00..49 are 20xx
+	dUpd: {"default", "1950-01-01T00:00:00Z", "1950-12-31T23:59:59Z", "1951-01-01T00:00:00Z", "1999-12-31T23:59:59Z", "2000-01-01T00:00:00Z", "2049-12-31T23:58:59Z"},
 }
 
 type c06Case [dNumDims]int
@@ -110,6 +114,12 @@ func (c c06Case) String() string {
 		if d == dPad {
 			if c[d] != 0 {
 				parts = append(parts, fmt.Sprintf("pad=%d", c[d]))
+			}
+			continue
+		}
+		if d == dUpd {
+			if c[d] != 0 {
+				parts = append(parts, "thisUpdate="+c06Values[d][c[d]][:4])
 			}
 			continue
 		}
@@ -234,6 +244,13 @@ func (c c06Case) build() (doc []byte, der []byte, wellFormed bool, mustReject bo
 	if c[dNU] == 1 {
 		s.NoNextUpdate = true
 	}
+	if c[dUpd] != 0 {
+		t, err := time.Parse(time.RFC3339, c06Values[dUpd][c[dUpd]])
+		if err != nil {
+			panic(err)
+		}
+		s.ThisUpdate, s.NextUpdate = t, t.Add(time.Minute)
+	}
 	n := 0
 	switch c06Values[dN][c[dN]] {
 	case "0":
@@ -251,6 +268,13 @@ func (c c06Case) build() (doc []byte, der []byte, wellFormed bool, mustReject bo
 	for i := 0; i < n; i++ {
 		ser, _ := c06Serial(c[dSerial], i)
 		e := world.RevEntry{Serial: ser, Date: vsched.Epoch.Add(-time.Duration(48+i) * time.Hour)}
+		if c[dUpd] != 0 {
+			t, _ := time.Parse(time.RFC3339, c06Values[dUpd][c[dUpd]])
+			e.Date = t.Add(-time.Minute)
+			if e.Date.Year() < 1950 {
+				e.Date = t
+			}
+		}
 		if c[dDate] == 1 {
 			e.GenTime = true
 			e.Date = time.Date(2051, 3, 4, 5, 6, 7+i%50, 0, time.UTC)
@@ -498,7 +522,7 @@ func RunC06(tier string, args []string) int {
 	}
 	// one-at-a-time dimensions crossed with a reduced core (version x crlExtensions{aki+number,absent} x encoding)
 	single := 0
-	for _, d := range []int{dSerial, dEExt, dIssuer, dAlg} {
+	for _, d := range []int{dSerial, dEExt, dIssuer, dAlg, dUpd} {
 		for v := 1; v < len(c06Values[d]); v++ {
 			for ver := 0; ver < 2; ver++ {
 				for ext := 0; ext < 2; ext++ {
